@@ -669,6 +669,7 @@ def run(ctx):
     before = len(ctx.viol)
     nlive += run_function_imports_and_types(ctx, binary)
     nlive += run_double_exports(ctx, binary)
+    nlive += run_identity_and_parent_imports(ctx, binary)
     spec_fail += len(ctx.viol) - before
     ctx.cov["evaluations"] = len(projs) + neg + nlive
     ctx.cov["distinct_nontrivial"] = nontrivial
@@ -739,4 +740,95 @@ def run_double_exports(ctx, binary):
                            {"files": files, "entry": entry, "mode": mode, "rc": r[0], "stdout": r[1][-800:], "stderr": r[2][-800:],
                             "expected": "a diagnostic before anything runs, or %r printed in this order and exit 0" % must,
                             "how": "mscript run %s -q   /   mscript compile %s --quick; mscript execute %s.mmm" % (entry, entry, entry[:-3])})
+    return n
+
+
+def run_identity_and_parent_imports(ctx, binary):
+    """(hunt2 D6, D9) two more observations of "one instance per module, shared by all importers".
+    D6: the language's identity operator `is` on module values: a module is itself under every name that refers to it, and two
+        modules are two instances even when they export equal values (changing one never changes the other).
+    D9: an import edge that goes UP a directory (`import ../m`, `a/../m`): the grammar has a rule for `..`; the module reached
+        that way is the one instance every other spelling reaches (initialised once, state shared, its classes one type)."""
+    base = ctx.mktemp()
+    cases = []          # (class, name, entry, files, expected stdout lines)
+    # ---- D6
+    exports = {"int": "export n: int = 0\n", "map": 'export n: int = 0\nexport table: map[str, int] = map[str, int]{"k": 1}\n',
+               "list": "export n: int = 0\nexport l: [int...] = [1, 2]\n", "float": "export x: float = 0.5\n",
+               "function": "export f: fn() -> int = fn() -> int {\n\treturn 1\n}\n",
+               "object": "export class K {\n\tv: int\n\tconstructor(self) {\n\t\tself.v = 1\n\t}\n}\nexport k: K = K()\n",
+               "nothing": "hidden = 1\n"}
+    for kind, text in sorted(exports.items()):
+        files = {"a.ms": 'print "init a"\n' + text, "b.ms": 'print "init b"\n' + text}
+        same = ('import a\nimport b\nagain = a\nprint a is a\nprint again is a\nprint a is again\n'
+                'same = fn() -> bool {\n\tother = a\n\treturn other is a\n}\nprint same()\n')
+        cases.append(("module-identity:module-is-not-itself", "exports " + kind, "main.ms", dict(files, **{"main.ms": same}),
+                      ["init a", "init b", "true", "true", "true", "true"]))
+        diff = 'import a\nimport b\nagain = b\nprint a is b\nprint b is a\nprint again is a\n'
+        cases.append(("module-identity:two-modules-are-one", "exports " + kind, "main.ms", dict(files, **{"main.ms": diff}),
+                      ["init a", "init b", "false", "false", "false"]))
+    # ---- D9
+    counter = ('print "init counter"\nn = 0\nexport bump: fn() = fn() {\n\tmodify n = n + 1\n}\nexport peek: fn() -> int = fn() -> int {\n\treturn n\n}\n'
+               'export class Box {\n\tv: int\n\tconstructor(self, v: int) {\n\t\tself.v = v\n\t}\n}\n')
+    up_forms = {"whole": ("import %s\n", "counter.bump()"), "names": ("import bump, peek from %s\n", "bump()")}
+    for form, (imp, bump) in sorted(up_forms.items()):
+        for sub, up in (("sub", "../counter"), ("sub", "./../counter"), ("sub", "../counter.ms"), ("sub/deep", "../../counter"), ("sub/deep", "../deep/../../counter")):
+            worker = 'print "init worker"\n' + imp % up + 'export work: fn() = fn() {\n\t%s\n}\n' % bump
+            for first in ("counter", "worker"):
+                imports = ["import counter\n", "import %s/worker\n" % sub]
+                exp = ["start", "init counter", "init worker"] if first == "counter" else ["start", "init worker", "init counter"]
+                if first == "worker":
+                    imports.reverse()
+                main = 'print "start"\n' + "".join(imports) + 'worker.work()\nprint counter.peek()\ncounter.bump()\nworker.work()\nprint counter.peek()\n'
+                cases.append(("parent-directory-import", "%s `%s` from %s/worker.ms, entry imports %s first" % (form, up, sub, first), "main.ms",
+                              {"main.ms": main, "counter.ms": counter, sub + "/worker.ms": worker}, exp + ["1", "3"]))
+    # a `..` in the middle of a path written in the entry module; the entry module itself in a sub-directory
+    cases.append(("parent-directory-import", "entry imports counter and sub/../counter", "main.ms",
+                  {"main.ms": 'print "start"\nimport counter\nimport bump from sub/../counter\nbump()\nprint counter.peek()\n', "counter.ms": counter,
+                   "sub/unused.ms": "x = 1\n"}, ["start", "init counter", "1"]))
+    cases.append(("parent-directory-import", "entry app/main.ms imports ../counter and ../lib/user (which imports ../counter)", "app/main.ms",
+                  {"app/main.ms": 'print "start"\nimport ../counter\nimport ../lib/user\nuser.work()\ncounter.bump()\nprint counter.peek()\n', "counter.ms": counter,
+                   "lib/user.ms": 'print "init user"\nimport bump from ../counter\nexport work: fn() = fn() {\n\tbump()\n}\n'},
+                  ["start", "init counter", "init user", "2"]))
+    # a class of the parent module is ONE type whichever way it is reached
+    cases.append(("parent-directory-import", "a class exported by the parent module, reached as counter and as ../counter", "main.ms",
+                  {"main.ms": 'print "start"\nimport Box from counter\nimport sub/maker\nb: Box = maker.mk()\nprint b.v\n', "counter.ms": counter,
+                   "sub/maker.ms": 'print "init maker"\nimport Box from ../counter\nexport mk: fn() -> Box = fn() -> Box {\n\treturn Box(7)\n}\n'},
+                  ["start", "init counter", "init maker", "7"]))
+
+    def one(case):
+        cls, name, entry, files, exp = case
+        d = programs.materialize({"files": files}, base)
+        r1 = programs.run_bin(binary, ["run", entry, "-q"], d)
+        c = programs.run_bin(binary, ["compile", entry, "--quick"], d)
+        r2 = programs.run_bin(binary, ["execute", entry[:-3] + ".mmm"], d) if c[0] == 0 else None
+        shutil.rmtree(d, ignore_errors=True)
+        return r1, r2
+
+    n = 0
+    for (cls, name, entry, files, exp), (r1, r2) in zip(cases, programs.pmap(one, cases)):
+        for mode, r in (("run", r1), ("compile+execute", r2)):
+            if r is None:
+                continue
+            n += 1
+            got = r[1].splitlines()
+            if r[0] == 0 and got == exp:
+                continue
+            if cls == "parent-directory-import":
+                inits = [l for l in got if l.startswith("init ")]
+                if "Did not compile successfully" in r[2]:
+                    sub = "rejected"
+                elif len(inits) != len(set(inits)):
+                    sub = "initialised-twice"
+                elif r[0] != 0:
+                    sub = "fails"
+                else:
+                    sub = "state-not-shared-or-order"
+                klass = cls + ":" + sub
+            else:
+                klass = cls
+            why = [l.strip() for l in (r[1] + r[2]).splitlines() if l.strip().startswith("=")]
+            ctx.report(klass, "%s (%s): exit %d, printed %r %s; one instance per module means %r" % (name, mode, r[0], got[-5:], why[:1], exp),
+                       {"files": files, "entry": entry, "mode": mode, "expected": exp, "observed": got, "rc": r[0], "stderr": r[2][-600:],
+                        "how": "mscript run %s -q   /   mscript compile %s --quick; mscript execute %s.mmm" % (entry, entry, entry[:-3])})
+    ctx.cov["module_identity_and_parent_import_cases"] = len(cases)
     return n
